@@ -6,7 +6,7 @@ P="$1"; shift
 cd /repo || exit 2
 [ -z "$(git status --porcelain)" ] || { echo "/repo not clean"; exit 2; }
 git apply "$P" 2>/dev/null || git apply -3 "$P" || { echo "patch does not apply"; exit 2; }
-trap 'git -C /repo checkout -q -- . ; git -C /repo status --porcelain' EXIT
+trap 'git -C /repo reset -q --hard HEAD ; git -C /repo status --porcelain' EXIT
 for prop in "$@"; do
   out=$(cd /verif && ./check $prop --tier quick 2>&1); rc=$?
   sigs=$(echo "$out" | grep "signature:" | sed 's/.*signature: //' | paste -sd';')
